@@ -8,6 +8,8 @@ def run(ctx):
     if not getattr(ctx, "replay", None):
         from .. import g72x as _g72x
         _g72x.pregen(ctx)
+        from .. import codectab as _codectab     # NMS / GSM tables by execution -> Generated/NmsTables.lean, GsmTables.lean
+        _codectab.pregen(ctx)
     run_common(ctx, "C06", modules_for("C06"), l1_scripts=300 if q else 3000, stride=2 if q else 1, nops=40 if q else 80)
     if not getattr(ctx, "replay", None):
         from .. import blockcamp
@@ -22,3 +24,5 @@ def run(ctx):
         gsm.run(ctx, "C06", 120 if q else 1200)
         from .. import alac           # CAF/ALAC: packet staging, pakt / kuki chunks, read / seek around the codec core (lean/SfModel/AlacFile.lean)
         alac.run(ctx, "C06", 96 if q else 960)
+        from .. import codecs20       # a table entry of the tree differs from the published one: look for an input that shows it
+        codecs20.search(ctx)
